@@ -1,4 +1,4 @@
 SPECIFICATION TSpec
-CONSTANTS Dev = {"NumericCompareViaF64", "NaNNotReflexive", "NegZeroHashDiffers", "SqlNumericLiteralViaF64"}
+CONSTANTS Dev = {"NaNNotReflexive", "SqlNumericLiteralViaF64"}
 POSTCONDITION Accepted
 CHECK_DEADLOCK FALSE
